@@ -461,6 +461,68 @@ def rule_compilecommand(chk, prog, tier):
     r.exhaustive = False
 
 
+LDSO = {('x86_64', 'gnu'): '/lib64/ld-linux-x86-64.so.2', ('aarch64', 'gnu'): '/lib/ld-linux-aarch64.so.1', ('riscv64', 'gnu'): '/lib/ld-linux-riscv64-lp64d.so.1',
+        ('x86_64', 'musl'): '/lib/ld-musl-x86_64.so.1', ('aarch64', 'musl'): '/lib/ld-musl-aarch64.so.1', ('riscv64', 'musl'): '/lib/ld-musl-riscv64.so.1',
+        ('x86_64', 'freebsd'): '/libexec/ld-elf.so.1', ('x86_64', 'openbsd'): '/usr/libexec/ld.so', ('x86_64', 'netbsd'): '/usr/libexec/ld.elf_so'}
+
+
+def rule_configure(chk, prog, tier):
+    r = chk.rule('C17.f', 'the base commands the driver is configured with (config.h, written by `configure`) are the ones asked for: target[] is the target triple; cpp/as/ld carry the target prefix exactly when cross-compiling and '
+                 '--with-cpp/-qbe/-as/-ld replace them; the link command names the dynamic linker of the target ABI, the one given with --with-ldso=, or - for an explicitly empty --with-ldso= on the Linux targets - none at all',
+                 floor=50, oracle='System V / musl / glibc ABI names of the dynamic linker per architecture; cproc README (configure options)')
+    import os, re as _re
+    import shi
+    path = os.path.join(facts.REPO, 'configure')
+    try: text = open(path).read()
+    except OSError: raise AnalysisBroken('configure not found')
+    HOST = 'x86_64-linux-gnu'
+    def cc(argv):
+        if '-dumpmachine' in argv: return 0, HOST + '\n'
+        if any(a.startswith('-print-file-name=') for a in argv): return 0, '/usr/lib/gcc/x86_64-linux-gnu/12/crtbegin.o\n'
+        return 1, ''
+    def strings(cfg, name):
+        m = _re.search(r'%s\[\]\s*=\s*\{(.*?)\};' % _re.escape(name), cfg, _re.S)
+        if not m: return None
+        body = _re.sub(r'/\*.*?\*/', '', m.group(1), flags=_re.S)
+        return _re.findall(r'"((?:[^"\\]|\\.)*)"', body)
+    TRIPLES = [('x86_64-linux-gnu', 'x86_64', 'gnu'), ('aarch64-linux-gnu', 'aarch64', 'gnu'), ('riscv64-linux-gnu', 'riscv64', 'gnu'), ('x86_64-linux-musl', 'x86_64', 'musl'), ('aarch64-linux-musl', 'aarch64', 'musl'),
+               ('riscv64-linux-musl', 'riscv64', 'musl'), ('x86_64-unknown-freebsd13', 'x86_64', 'freebsd'), ('x86_64-unknown-openbsd7', 'x86_64', 'openbsd'), ('x86_64-unknown-netbsd', 'x86_64', 'netbsd')]
+    for triple, arch, osn in TRIPLES:
+        for ldso in (None, '/opt/lib/ld.so', ''):
+            for tools in (False, True):
+                if ldso == '' and osn not in ('gnu', 'musl'): continue          # the BSD arms treat an empty value like none given: not judged
+                args = ['--target=' + triple, '--with-gcc-libdir=/g'] if triple != HOST else []
+                if ldso is not None: args.append('--with-ldso=' + ldso)
+                if tools: args += ['--with-cpp=mycpp', '--with-qbe=myqbe', '--with-as=myas', '--with-ld=myld']
+                key = 'configure:%s' % (' '.join(args) or '(native)')
+                try:
+                    sh = shi.Shell(text, commands={'cc': cc}); st = sh.run(args)
+                except shi.ShUnsupported as x:
+                    raise AnalysisBroken('configure uses shell syntax the interpreter does not model: %s' % x)
+                cfg = sh.files.get('config.h')
+                if st != 0 or cfg is None:
+                    r.instance(False, key, 'configure', 'a supported target is refused: exit %s %s' % (st, ''.join(sh.stderr).strip())); continue
+                got = {n: strings(cfg, n) for n in ('preprocesscmd', 'codegencmd', 'assemblecmd', 'linkcmd')}
+                tm = _re.search(r'target\[\]\s*=\s*"([^"]*)"', cfg)
+                pre = '' if triple == HOST else triple + '-'
+                want_cpp = 'mycpp' if tools else ('/usr/libexec/cpp' if osn == 'openbsd' and triple == HOST else pre + 'cpp')
+                want = {'cpp': want_cpp, 'qbe': 'myqbe' if tools else 'qbe', 'as': 'myas' if tools else pre + 'as', 'ld': 'myld' if tools else pre + 'ld'}
+                bad = []
+                if not tm or tm.group(1) != triple: bad.append('target[] is %r' % (tm.group(1) if tm else None))
+                for n, w_ in (('preprocesscmd', want['cpp']), ('codegencmd', want['qbe']), ('assemblecmd', want['as']), ('linkcmd', want['ld'])):
+                    if not got[n] or got[n][0] != w_: bad.append('%s starts with %r, expected %r' % (n, got[n][0] if got[n] else None, w_))
+                lk = got['linkcmd'] or []
+                dl = [lk[i + 1] if i + 1 < len(lk) else None for i, a in enumerate(lk) if a == '--dynamic-linker']
+                want_dl = [] if ldso == '' else [ldso if ldso else LDSO[(arch, osn)]]
+                if dl != want_dl: bad.append('the link command names the dynamic linker(s) %s, expected %s' % (dl, want_dl))
+                r.instance(not bad, key, 'configure', '; '.join(bad))
+    # unsupported targets are refused, not configured with someone else's defaults
+    for triple in ('mips-linux-gnu', 'i686-linux-musl', 'x86_64-w64-mingw32'):
+        sh = shi.Shell(text, commands={'cc': cc}); st = sh.run(['--target=' + triple, '--with-gcc-libdir=/g'])
+        r.instance(st != 0, 'configure:--target=%s' % triple, 'configure', 'an unsupported target is configured (exit 0); linkcmd %s' % strings(sh.files.get('config.h', ''), 'linkcmd'))
+    r.exhaustive = False
+
+
 def run(chk, tier):
     prog = facts.programs()['cproc']
     C = cfg(prog)
@@ -469,3 +531,4 @@ def run(chk, tier):
     chk.guard('C17.b', lambda: rule_stages(chk, prog, tier, C))
     chk.guard('C17.d', lambda: rule_changeext(chk, prog, tier, C))
     chk.guard('C17.e', lambda: rule_compilecommand(chk, prog, tier))
+    chk.guard('C17.f', lambda: rule_configure(chk, prog, tier))
